@@ -143,6 +143,18 @@ Section Coherence.
   Qed.
 End Coherence.
 
+(* every transport identity libp2p.New derives from a key (of this node or of any node running this code) is canonical *)
+Lemma host_id_canonical (pub : N -> point) (compress : point -> bytes) key_bytes pid :
+  (forall P, length (compress P) = 33%nat) -> host_id pub compress key_bytes = Some pid -> canonical pid.
+Proof.
+  intros Hc H. unfold host_id in H. destruct (unmarshal_priv key_bytes) as [k|]; [|discriminate].
+  injection H as <-. exists (compress (pub k)). split; [apply Hc|reflexivity].
+Qed.
+
+Example host_id_canonical_instance :
+  canonical (peerid (2 :: be 32 258)).
+Proof. exists (2 :: be 32 258). split; [cbn [length]; rewrite be_length; reflexivity|reflexivity]. Qed.
+
 (* the wiring of libp2p.New as read from the source on this run *)
 Lemma wiring_now : wiring_ok = true.
 Proof. reflexivity. Qed.
